@@ -19,7 +19,8 @@ Tie        : A. arim.measurement.move_probe_over_flat_surface on real Frame/Prob
                 sample times of an exactly representable pose, vs the ground truth.
              C. detect_surface_from_extrema, Time.window (all endpoint flags),
                 Time.closest_index compared EXACTLY with the model evaluated by vm_compute on
-                binary64 (ties of |value|, negative extrema, bounds on samples, empty windows).
+                binary64 (ties of |value|, negative extrema, bounds on samples, empty windows);
+                complex (analytic) timetraces against the brute-force specification only.
 Spec on impl: every element ends at z = -d_k, y = 0, PCS coordinates unchanged, PCS origin at
              (0, 0, z_o); returned times are sample times inside the window with maximal
              |value|, first among ties.
@@ -561,8 +562,12 @@ for c, o in zip(fp_cases, outs):
                      "theta_true": abs(impl["theta"] - c["th"]) <= 1e-9,
                      "pcs_origin": not differ(impl["pcs"][0], [0.0, 0.0, c["z0"]], scale)}
         else:
+            # echoes rounded to the nearest sample: each distance is off by at most delta = c*dt/4; the fitted
+            # line at a DATA abscissa is off by at most delta * sum_j |h_ij| <= delta * sqrt(#data) (hat matrix)
             delta = c["c"] * c["dt"] / 4
-            preds = {"z_within_quantisation": bool(np.all(np.abs(impl["locs"][:, 2] + c["d_e"]) <= 3 * delta))}
+            ue = np.unique(c["tx"][c["usable"]])
+            preds = {"z_within_quantisation": bool(np.all(np.abs(impl["locs"][ue, 2] + c["d_e"][ue])
+                                                          <= 1.01 * delta * math.sqrt(len(ue))))}
         for name, ok in preds.items():
             if not ok:
                 spec_ok = False
@@ -702,6 +707,34 @@ for it in range(num_det):
                       {"fn": "Time.closest_index", "time": [start, step, num], "t": t, "impl": ci})
     clo_cases.append(cpair(cfloat(start), cfloat(step), cZ(num), cfloat(t), cZ(ci)))
     clo_meta.append({"fn": "Time.closest_index", "time": [start, step, num], "t": t, "impl": ci})
+
+# complex (analytic-signal) timetraces: |.| is the modulus; Gaussian integers so that ties are exact
+# (3+4j, 5, -5j, 4-3j ...).  Specification only (the model is stated for real samples).
+for it in range(60 if Q else 600):
+    start, step, num = time_params()
+    time = Time(start, step, num)
+    st = np.array(time.samples, float)
+    tmin = None if rng.random() < 0.4 else bound(st, step)
+    tmax = None if rng.random() < 0.4 else bound(st, step)
+    if tmin is not None and tmax is not None and tmin > tmax:
+        tmin, tmax = tmax, tmin
+    pool = np.array([3 + 4j, 5, -5j, 4 - 3j, -3 - 4j, 1, 2j, 0, 5 + 12j, 13, -12 + 5j, 1 + 1j])
+    tt = rng.choice(pool, size=(2, num))
+    frame = arim.Frame(tt, time, np.array([0, 1]), np.array([0, 1]), probe3, EXAM)
+    try:
+        res = [float(v) for v in reg.detect_surface_from_extrema(frame, tmin, tmax)]
+    except ValueError as e:
+        res = None
+        if "empty sequence" not in str(e):
+            raise
+    evaluations += 1
+    spec = [brute_detect(st, tt[i], tmin, tmax) for i in range(2)]
+    spec = None if any(v is None for v in spec) else spec
+    chk.count(C_detect="complex")
+    if res != spec:
+        chk.violation("C:detect-spec-complex", "detect_surface_from_extrema (complex samples) is not the first largest modulus in the window",
+                      {"fn": "detect_surface_from_extrema", "time": [start, step, num], "tmin": tmin, "tmax": tmax,
+                       "timetraces_real": tt.real, "timetraces_imag": tt.imag, "impl": res, "spec": spec})
 
 for name, cases, meta, ctype, fn, what in (
         ("detect", det_cases, det_meta, "float * float * Z * option float * option float * list (list float) * option (list float)",
